@@ -38,9 +38,9 @@ extern "C" void h_hmac()
     const QByteArray key = freshBytes(vp_cfg0(), vp_cfg1());
     const QByteArray text = freshBytes(0, vp_cfg3());
     const bool md5 = vp_cfg2() != 0;
-#ifdef KF_hmac_long_key
-    vp_assume(key.size() <= 64);       // known finding: keys longer than the block size are not hashed first
-#endif
+#if defined(KF_hmac_long_key) && !defined(VP_DEMONSTRATE_KF)
+    if (key.size() > 64) return;       // known finding hmac_long_key: keys longer than the block size are not hashed first (excluded here,
+#endif                                 // demonstrated by the kf_* instances of the group built with VP_DEMONSTRATE_KF)
     const QByteArray got = md5 ? QXmppUtils::generateHmacMd5(key, text) : QXmppUtils::generateHmacSha1(key, text);
     QByteArray expected; vp_hmac_rfc2104(&expected, md5 ? int(QCryptographicHash::Md5) : int(QCryptographicHash::Sha1), &key, &text);
     vp_assert(got.size() == (md5 ? 16 : 20), "C14 HMAC has the digest size of the hash");
